@@ -407,13 +407,13 @@ func (c *Conn) Dead() error {
 
 // Stream is one end of a bidirectional stream.
 type Stream struct {
-	p        *Pair
-	core     *streamCore
-	side     int
-	closed   bool
-	readDL   time.Time
-	writeDL  time.Time
-	dlTimer  *time.Timer
+	p       *Pair
+	core    *streamCore
+	side    int
+	closed  bool
+	readDL  time.Time
+	writeDL time.Time
+	dlTimer *time.Timer
 }
 
 var _ transfer.Stream = (*Stream)(nil)
